@@ -292,6 +292,7 @@ func checkC11(r *Run) {
 	ruleCloseOrder(r, p, "CLOSE")
 	ruleFatalCloses(r, p, "FATAL")
 	ruleMultiKeepsEveryWriter(r, p, "FATAL") // every writer handed to MultiLevelWriter is in the list Close walks
+	ruleCloseCoversWrittenFields(r, p, "FATAL")
 	ruleA20(r, p, "A20")
 	ruleA21(r, p, "A21")
 	ruleAlertWiring(r, p, "ALERT")
